@@ -90,6 +90,7 @@ def run(prop, tier, seed, rep):
     import bits_checks
     for k in (1, 2):
         inputs += [{"bytes": list(b)} for b in bits_checks.shape_frames(random.Random(seed * 13 + k))]
+    inputs += [{"bytes": list(b)} for b in decode_checks.near_integer_speed_frames(random.Random(seed * 17 + 3), 400 if tier == "quick" else 6000)]
     hx = core.build_hx("std")
     events = core.run_hx(hx, ["decode", "--text", "--ops"], inputs)
     for e in events:
